@@ -477,13 +477,13 @@ package ast
 // successfully (errorkeeps + memoset of Expression.Evaluate: a failed expression is not marked evaluated, so a swallowed
 // failure cannot satisfy `selectorvalue`). The rank clause and the resolution-context clause stay ASSUMED (A-NESTED, A-TREE).
 //@ func (e *ArrayMapSelector) Evaluate(dataContext, memory) (val, err)
-//@   serves C01 C02 C13 C14
+//@   serves C01 C02 C04 C13 C14
 //@   requires $depth >= 0 && treeWF()
 //@   modifies @memo, $exprRes, $varRes, $atomRes, @reslog, $atomErrN
 //@   ensures monoE: forall x *Expression :: old(x.Evaluated) ==> x.Evaluated && x.Value == old(x.Value)
 //@   ensures monoA: forall a *ExpressionAtom :: old(a.Evaluated) ==> a.Evaluated && a.Value == old(a.Value)
 //@   ensures remembered: err == nil ==> e.Value == val
-//@   ensures[C01,C02,C14] selectorvalue: err == nil ==> e.Expression != nil && e.Expression.Evaluated && val == e.Expression.Value
+//@   ensures[C01,C02,C04,C14] selectorvalue: err == nil ==> e.Expression != nil && e.Expression.Evaluated && val == e.Expression.Value
 //@   ensures[C14] noswallow: err == nil ==> $atomErrN == old($atomErrN)
 //@   trusted_ensures atomsAboveUntouched(e)
 //@   ensures mono: reslogMono()
@@ -1380,20 +1380,56 @@ package ast
 // F5 (C12, C16): the rule-entry record of the binary format has no field for Deleted, so the only way "a removed rule
 // never fires again, including after store and load" can hold is that a removed entry is not catalogued as a live rule.
 //@ ghost var $catAddN int
+//@ ghost var $catAddOK array[Ref]bool    // record object -> it was filed by the AddMeta call that received it
 //@ extern func (cat *Catalog) AddMeta(astID, meta) (added)
 //@   nopanic
 //@   ghost_exit $catAddN = $catAddN + 1
+//@   ghost_exit $catAddOK = store($catAddOK, meta, added)
+// what a node-level MakeCatalog may touch: it creates records and files them; it writes no record that existed before the call and
+// files none it did not create (ASSUMED for the child calls below; the two LIST-valued nodes are CHECKED against their bodies)
+//@ modset catfx = $catAddN, $catAddOK, alloc, $allocated, fresh ArgumentListMeta.*, fresh ArrayMapSelectorMeta.*, fresh AssigmentMeta.*, fresh ConstantMeta.*, fresh ExpressionMeta.*, fresh ExpressionAtomMeta.*, fresh FunctionCallMeta.*, fresh RuleEntryMeta.*, fresh ThenExpressionMeta.*, fresh ThenExpressionListMeta.*, fresh ThenScopeMeta.*, fresh VariableMeta.*, fresh WhenScopeMeta.*, fresh NodeMeta.*
+//@ extern func (e *Expression) MakeCatalog(cat) ()
+//@   modifies @catfx
+//@   ensures forall m Ref :: old(allocated(m)) ==> $catAddOK[m] == old($catAddOK[m])
+//@ extern func (e *ThenExpression) MakeCatalog(cat) ()
+//@   modifies @catfx
+//@   ensures forall m Ref :: old(allocated(m)) ==> $catAddOK[m] == old($catAddOK[m])
+// C12: the record a list-valued node files lists EXACTLY the node's elements, one id per element, in order (a record that lost,
+// repeated or reordered an element rebuilds a different call or a different action list without any error). Stated as the loop
+// invariant `sofar` over the record this call created and AddMeta accepted ($catAddOK[meta]): it has one slot per element from the
+// start and slot j holds element j's id for every element processed; nothing else writes the record (frame: only records created
+// during the call are written, `oldrecords`). There is no postcondition naming the record: a contract cannot name the local.
+//@ func (e *ArgumentList) MakeCatalog(cat) ()
+//@   serves C12
+//@   requires e != nil && cat != nil
+//@   opt alloc=1
+//@   modifies @catfx
+//@   invariant@1 sofar: meta != nil && !old(allocated(meta)) && e == old(e) && len(meta.ArgumentASTIDs) == len(e.Arguments) && (forall j int :: 0 <= j && j < $i ==> meta.ArgumentASTIDs[j] == e.Arguments[j].AstID) && $catAddOK[meta]
+//@   invariant@1 oldrecords: forall m *ArgumentListMeta :: old(allocated(m)) ==> m.ArgumentASTIDs == old(m.ArgumentASTIDs)
+//@   invariant@1 others: forall m Ref :: old(allocated(m)) ==> $catAddOK[m] == old($catAddOK[m])
+//@   ensures others: forall m Ref :: old(allocated(m)) ==> $catAddOK[m] == old($catAddOK[m])
+//@ extern func (e *ThenExpressionList) GetSnapshot() (s)
+//@   modifies
+//@ func (e *ThenExpressionList) MakeCatalog(cat) ()
+//@   serves C12
+//@   requires e != nil && cat != nil
+//@   opt alloc=1
+//@   modifies @catfx
+//@   invariant@1 sofar: meta != nil && !old(allocated(meta)) && e == old(e) && len(meta.ThenExpressionIDs) == len(e.ThenExpressions) && (forall j int :: 0 <= j && j < $i ==> meta.ThenExpressionIDs[j] == e.ThenExpressions[j].AstID) && $catAddOK[meta]
+//@   invariant@1 oldrecords: forall m *ThenExpressionListMeta :: old(allocated(m)) ==> m.ThenExpressionIDs == old(m.ThenExpressionIDs)
+//@   invariant@1 others: forall m Ref :: old(allocated(m)) ==> $catAddOK[m] == old($catAddOK[m])
+//@   ensures others: forall m Ref :: old(allocated(m)) ==> $catAddOK[m] == old($catAddOK[m])
 //@ extern func (e *RuleEntry) GetSnapshot() (s)
 //@   nopanic
 //@ extern func (e *WhenScope) MakeCatalog(cat) ()
-//@   modifies $catAddN
+//@   modifies $catAddN, $catAddOK
 //@ extern func (e *ThenScope) MakeCatalog(cat) ()
-//@   modifies $catAddN
+//@   modifies $catAddN, $catAddOK
 //@ func (e *RuleEntry) MakeCatalog(cat) ()
 //@   serves C12 C16
 //@   requires e != nil && cat != nil
 //@   opt alloc=1
-//@   modifies $catAddN, alloc, RuleEntryMeta.*
+//@   modifies $catAddN, $catAddOK, alloc, RuleEntryMeta.*
 //@   ensures[C12,C16] deletednotstored: e.Deleted ==> $catAddN == old($catAddN)
 
 // =========================================================================================================
@@ -1648,7 +1684,7 @@ package ast
 //@ pure func constPiece(v RV) string { return ite(v.kind == 24, fmt_q_GoStr(v.s), ite(2 <= v.kind && v.kind <= 6, fmt_d_int(v.bits), ite(7 <= v.kind && v.kind <= 11, fmt_d_uint(v.bits),
 //@      ite(v.kind == 13 || v.kind == 14, fmt_g_F64(v.f), ite(v.kind == 1, fmt_v_Bool(v.b), ""))))) }
 //@ func (e *Constant) GetSnapshot() (s)
-//@   serves C07
+//@   serves C01 C02 C07
 //@   ints bv
 //@   requires e != nil
 //@   nopanic
@@ -1672,53 +1708,55 @@ package ast
 // The clause is taken from the property, not from the code: a branch that writes a child twice doubles per nesting level.
 //@ macro func snl(x Ref) int { return ite(x != nil, len(fn_GetSnapshot_0(x)), 0) }
 //@ func (e *Expression) GetSnapshot() (s)
-//@   serves C07 C20
+//@   serves C01 C02 C07 C20
 //@   opt strite=1
 //@   trusted_nopanic
 //@   modifies
 //@   trusted_ensures s == fn_GetSnapshot_0(e)
 //@   checks[C20] linear: len(s) <= 24 + snl(e.SingleExpression) + snl(e.LeftExpression) + snl(e.RightExpression) + snl(e.ExpressionAtom)
-//@   checks[C07] format: s == "E(" + ite(e.SingleExpression != nil, "SE(" + ite(e.Negated, "!", "") + fn_GetSnapshot_0(e.SingleExpression) + ")", "")
+//@   checks[C01,C02,C07] format: s == "E(" + ite(e.SingleExpression != nil, "SE(" + ite(e.Negated, "!", "") + fn_GetSnapshot_0(e.SingleExpression) + ")", "")
 //@        + ite(e.LeftExpression != nil && e.RightExpression != nil, "EL(" + fn_GetSnapshot_0(e.LeftExpression) + ")" + opSym(e.Operator) + "ER(" + fn_GetSnapshot_0(e.RightExpression) + ")", "")
 //@        + ite(e.ExpressionAtom != nil, "EA(" + fn_GetSnapshot_0(e.ExpressionAtom) + ")", "") + ")"
 //@ func (e *ExpressionAtom) GetSnapshot() (s)
-//@   serves C07 C20
+//@   serves C01 C02 C07 C20
 //@   opt strite=1
 //@   trusted_nopanic
 //@   modifies
 //@   trusted_ensures s == fn_GetSnapshot_0(e)
 //@   checks[C20] linear: len(s) <= 16 + len(e.VariableName) + snl(e.Variable) + snl(e.Constant) + snl(e.FunctionCall) + snl(e.ExpressionAtom) + snl(e.ArrayMapSelector)
-//@   checks[C07] format: s == "A(" + ite(e.Variable != nil, fn_GetSnapshot_0(e.Variable), ite(e.Constant != nil, fn_GetSnapshot_0(e.Constant),
+//@   checks[C01,C02,C07] format: s == "A(" + ite(e.Variable != nil, fn_GetSnapshot_0(e.Variable), ite(e.Constant != nil, fn_GetSnapshot_0(e.Constant),
 //@        ite(e.FunctionCall != nil && e.ExpressionAtom == nil, fn_GetSnapshot_0(e.FunctionCall),
 //@        ite(e.FunctionCall == nil && e.ExpressionAtom != nil && len(e.VariableName) == 0, ite(e.Negated, "!", "") + fn_GetSnapshot_0(e.ExpressionAtom),
 //@        ite(e.FunctionCall != nil && e.ExpressionAtom != nil, fn_GetSnapshot_0(e.ExpressionAtom) + "->" + fn_GetSnapshot_0(e.FunctionCall),
 //@        ite(len(e.VariableName) > 0 && e.ExpressionAtom != nil, fn_GetSnapshot_0(e.ExpressionAtom) + "->MV:" + e.VariableName, ""))))))
 //@        + ite(e.ArrayMapSelector != nil && e.ExpressionAtom != nil, "-[]>" + fn_GetSnapshot_0(e.ArrayMapSelector), "") + ")"
+// (C01/C02: the memo index decides "mentions" by snapshot containment, so a node's snapshot must embed its children's SNAPSHOTS - the
+// format clauses of the seven node snapshots are therefore checked in the C01/C02 runs as well)
 //@ func (e *Variable) GetSnapshot() (s)
-//@   serves C07 C20
+//@   serves C01 C02 C07 C20
 //@   opt strite=1
 //@   trusted_nopanic
 //@   modifies
 //@   trusted_ensures s == fn_GetSnapshot_0(e)
 //@   checks[C20] linear: len(s) <= 8 + len(e.Name) + snl(e.Variable) + snl(e.ArrayMapSelector)
-//@   checks[C07] format: s == "V(" + ite(len(e.Name) > 0 && e.Variable == nil, "N:" + e.Name, ite(e.Variable != nil && len(e.Name) > 0, "O:" + fn_GetSnapshot_0(e.Variable) + "->" + e.Name,
+//@   checks[C01,C02,C07] format: s == "V(" + ite(len(e.Name) > 0 && e.Variable == nil, "N:" + e.Name, ite(e.Variable != nil && len(e.Name) > 0, "O:" + fn_GetSnapshot_0(e.Variable) + "->" + e.Name,
 //@        ite(e.Variable != nil && e.ArrayMapSelector != nil, "O:" + fn_GetSnapshot_0(e.Variable) + "->" + fn_GetSnapshot_0(e.ArrayMapSelector), ""))) + ")"
 //@ func (e *FunctionCall) GetSnapshot() (s)
-//@   serves C07 C20
+//@   serves C01 C02 C07 C20
 //@   opt strite=1
 //@   trusted_nopanic
 //@   modifies
 //@   trusted_ensures s == fn_GetSnapshot_0(e)
 //@   checks[C20] linear: len(s) <= 8 + len(e.FunctionName) + snl(e.ArgumentList)
-//@   checks[C07] format: s == "F(n:" + e.FunctionName + ite(e.ArgumentList != nil, "," + fn_GetSnapshot_0(e.ArgumentList), "") + ")"
+//@   checks[C01,C02,C07] format: s == "F(n:" + e.FunctionName + ite(e.ArgumentList != nil, "," + fn_GetSnapshot_0(e.ArgumentList), "") + ")"
 //@ func (e *ArrayMapSelector) GetSnapshot() (s)
-//@   serves C07 C20
+//@   serves C01 C02 C07 C20
 //@   opt strite=1
 //@   trusted_nopanic
 //@   modifies
 //@   trusted_ensures s == fn_GetSnapshot_0(e)
 //@   checks[C20] linear: len(s) <= 8 + snl(e.Expression)
-//@   checks[C07] format: s == "MAS(" + ite(e.Expression != nil, fn_GetSnapshot_0(e.Expression), "") + ")"
+//@   checks[C01,C02,C07] format: s == "MAS(" + ite(e.Expression != nil, fn_GetSnapshot_0(e.Expression), "") + ")"
 // the flat scope/statement snapshots: same size clause (each child once)
 //@ func (e *WhenScope) GetSnapshot() (s)
 //@   serves C20
@@ -1747,14 +1785,14 @@ package ast
 //@ axiom od_alsnap1: forall a []*Expression {alSnap(a, 1)} :: alSnap(a, 1) == fn_GetSnapshot_0(a[0])
 //@ axiom od_alsnapN: forall a []*Expression, n int {alSnap(a, n)} :: n >= 2 ==> alSnap(a, n) == alSnap(a, n - 1) + "," + fn_GetSnapshot_0(a[n - 1])
 //@ func (e *ArgumentList) GetSnapshot() (s)
-//@   serves C07
+//@   serves C01 C02 C07
 //@   opt strite=1
 //@   opt axioms=od_alsnap0,od_alsnap1,od_alsnapN
 //@   trusted_nopanic
 //@   modifies
 //@   trusted_ensures s == fn_GetSnapshot_0(e)
 //@   invariant@1[C07] acc: buff == "AL(" + alSnap(e.Arguments, $i)
-//@   checks[C07] format: s == "AL(" + alSnap(e.Arguments, len(e.Arguments)) + ")"
+//@   checks[C01,C02,C07] format: s == "AL(" + alSnap(e.Arguments, len(e.Arguments)) + ")"
 // the 15 operator spellings are pairwise different and none is a prefix of "ER(" (LL(1) disjointness, ground)
 //@ lemma[C07] opsym_injective: forall a int, b int :: 0 <= a && a <= 14 && 0 <= b && b <= 14 && opSym(a) == opSym(b) ==> a == b
 
@@ -2190,7 +2228,7 @@ package ast
 //@   opt alloc=1
 //@   requires e != nil && e.WorkingMemory != nil && varIdsDistinct()
 //@   requires forall k string :: has(e.RuleEntries, k) ==> e.RuleEntries[k] != nil
-//@   modifies $catAddN, alloc, $allocated, RuleEntryMeta.*, fresh Catalog.*, map[string]string, map[string][]string
+//@   modifies $catAddN, $catAddOK, alloc, $allocated, RuleEntryMeta.*, fresh Catalog.*, map[string]string, map[string][]string
 //@   invariant@1 shape: fresh(catalog) && catalog.KnowledgeBaseName == e.Name && catalog.KnowledgeBaseVersion == e.Version && e.WorkingMemory != nil && e.WorkingMemory == old(e.WorkingMemory)
 //@   ensures[C12] header: c != nil && c.KnowledgeBaseName == e.Name && c.KnowledgeBaseVersion == e.Version && c.MemoryName == e.WorkingMemory.Name && c.MemoryVersion == e.WorkingMemory.Version
 //@   ensures[C12] snapshotmaps: wmA(e.WorkingMemory, c) && wmB(e.WorkingMemory, c) && wmC(e.WorkingMemory, c)
@@ -2202,7 +2240,7 @@ package ast
 //@   serves C12
 //@   opt alloc=1
 //@   requires libWF(lib) && writer != nil && varIdsDistinct()
-//@   modifies *, @wstream, $catAddN, $allocated
+//@   modifies *, @wstream, $catAddN, $catAddOK, $allocated
 //@   ensures[C12] errorsurfaces: ($wErrN > old($wErrN)) == (err != nil)
 // an instance exists exactly for a (name, version) the library holds; it is the blueprint's clone under a NEW clone table
 //@ extern func (e *KnowledgeBase) IsIdentical(that) (r)
